@@ -17,7 +17,14 @@ import (
 // Rand is splitmix64; every random choice of a run derives from VERIF_SEED.
 type Rand struct{ s uint64 }
 
-func NewRand(seed uint64) *Rand { return &Rand{s: seed*0x9E3779B97F4A7C15 + 0x1234567} }
+func NewRand(seed uint64) *Rand {
+	// hash the seed first: consecutive seeds must not give shifted copies of one stream
+	z := seed + 0x9E3779B97F4A7C15
+	z = (z ^ (z >> 30)) * 0xBF58476D1CE4E5B9
+	z = (z ^ (z >> 27)) * 0x94D049BB133111EB
+	z ^= z >> 31
+	return &Rand{s: z*0xD6E8FEB86659FD93 + 0x1234567}
+}
 
 func (r *Rand) U64() uint64 {
 	r.s += 0x9E3779B97F4A7C15
@@ -179,6 +186,9 @@ func (s *Session) Close(outDir string) error {
 		f.Close()
 	}
 	sort.Strings(s.Meta.Samples)
+	if s.Meta.Samples == nil {
+		s.Meta.Samples = []string{}
+	}
 	if s.Meta.Failures == nil {
 		s.Meta.Failures = []Failure{}
 	}
